@@ -22,6 +22,10 @@ KNOWN = VERIF / "known_findings.json"
 
 
 LOAD_ERRORS = []
+# curated quick tier for units with very many instances (everything else of these units runs in the thorough tier)
+QUICK_OVERRIDE = {
+    "u6_serde": (r"^(serialize_exact_p(000|048|120)|roundtrip_p(000|048|124)|deserialize_script_n[12]|deserialize_order_independent_n2|field_names_exact|writer_forwards_every_byte|footer_empty_rejected|canary_serde)$", 14),
+}
 BACKEND_GROUPS = {"paseto-v1": "v1", "paseto-v2": "v2", "paseto-v3": "v3", "paseto-v3-aws-lc": "awslc", "paseto-v4": "v4", "paseto-v4-sodium": "v4s"}
 
 
@@ -42,6 +46,12 @@ def load_units() -> dict:
                 h.path = h.path or u.harness_path
                 h.unit = u.name
             # all units of one backend crate share one scratch workspace and one build
+            if u.name in QUICK_OVERRIDE:
+                pat, qc = QUICK_OVERRIDE[u.name]
+                for h in u.harnesses:
+                    if h.tier == "quick" and not re.search(pat, h.name):
+                        h.tier = "thorough"
+                u.quick_cap = qc
             if not u.group and u.kind == "kani" and not u.harness_crate and u.package in BACKEND_GROUPS:
                 u.group = BACKEND_GROUPS[u.package]
             units[u.name] = u
@@ -226,9 +236,20 @@ def main(argv=None):
 
     # select harnesses
     cap = int(os.environ.get("VERIF_QUICK_CAP", "4"))
+    # measured cost of each harness (units/timings.json, seconds on a loaded machine; regenerated by bin/collect-timings):
+    # the quick tier defers harnesses above VERIF_QUICK_MAX_S to the thorough tier, unless nothing else of the unit carries the property
+    try:
+        timings = json.loads((VERIF / "units" / "timings.json").read_text())
+    except Exception:
+        timings = {}
+    qmax = float(os.environ.get("VERIF_QUICK_MAX_S", "420"))
     selected = {}
     for u in units.values():
         hs = [h for h in u.harnesses if prop in h.props and (tier == "thorough" or h.tier == "quick")]
+        if tier == "quick" and not (only and ":" in only) and hs:
+            cost = lambda h: timings.get(f"{u.name}::{h.name}", 0.0)
+            fast = [h for h in hs if cost(h) <= qmax]
+            hs = fast if fast else [min(hs, key=cost)]
         if only:
             un, _, hre = only.partition(":")
             if u.name != un and u.group != un:
